@@ -482,8 +482,24 @@ def gen_statement(e, d):
         if ys:
             y = r.choice(ys)
             x = e.new_name()
-            form = r.randrange(7)
+            form = r.randrange(10)
             lines = []
+            if form >= 7:
+                # the pairs handed out by enumerate()/items() are host tuples holding the very container: binding or storing one must copy through it
+                if form == 7:
+                    lines.append('%s = enumerate([%s, %s])[1]' % (x, y, y))
+                    acc = '%s[1]' % x
+                elif form == 8:
+                    lines.append('%s = items({"k": %s})[0]' % (x, y))
+                    acc = '%s[1]' % x
+                else:
+                    lines.append('%s = [0]' % x)
+                    lines.append('%s[0] = enumerate([%s])[0]' % (x, y))
+                    acc = '%s[0][1]' % x
+                lines.append(r.choice(['push(%s, %s)' % (acc, gen_num(e, 0)), 'insert(%s, 0, %s)' % (acc, gen_num(e, 0)), '%s += [%s]' % (y, gen_num(e, 0))]))
+                if lines[-1].startswith(y):
+                    e.lens[y] += 1
+                return '\n'.join(lines)
             if form == 0:
                 lines.append('%s = %s' % (x, y))
                 e.vars[x] = ('list', 'num'); e.lens[x] = e.lens[y]
